@@ -571,9 +571,15 @@ impl<TokenIter: Iterator<Item = Result<Token>>> Parser<TokenIter> {
                                 "quote" => Self::transform_quote(pair.into_iter())?
                                     .locate(datum.location)
                                     .into(),
-                                "set!" => Self::transform_assignment(pair.into_iter(), syntax_env)?
-                                    .locate(datum.location)
-                                    .into(),
+                                "set!" => {
+                                    // located at the variable being assigned: that is where an
+                                    // unbound-variable error has to point
+                                    let target_location =
+                                        pair.iter().next().and_then(|d| d.location).or(location);
+                                    Self::transform_assignment(pair.into_iter(), syntax_env)?
+                                        .locate(target_location)
+                                        .into()
+                                }
                                 "define-syntax" => {
                                     Self::transform_syntax_definition(pair.into_iter(), syntax_env)?
                                         .locate(datum.location)
